@@ -462,8 +462,12 @@ fn clamp_words(bytes: u64) -> i32 {
     (bytes / 2).min(i32::MAX as u64) as i32
 }
 
-/// (note, shp, shx) for one declared count `n` of type `ty`.
-pub fn ladder_inputs(ty: i32, n: u64, with_m: bool) -> Vec<(String, Vec<u8>, Vec<u8>)> {
+/// How much real data stands behind the declared counts: nothing to speak of, or just enough to
+/// fill (and exceed) a first pre-allocated chunk of 1024 / 4096 elements.
+pub const BACKING: [usize; 5] = [4, 1024, 1025, 2048, 5000];
+
+/// (note, shp, shx) for one declared count `n` of type `ty`, with `backing` real elements present.
+pub fn ladder_inputs(ty: i32, n: u64, with_m: bool, backing: usize) -> Vec<(String, Vec<u8>, Vec<u8>)> {
     let mut out = Vec::new();
     let mk_shx = |off_words: i32, len_words: i32| {
         let mut s = hdr(ty, 54);
@@ -471,6 +475,9 @@ pub fn ladder_inputs(ty: i32, n: u64, with_m: bool) -> Vec<(String, Vec<u8>, Vec
         s.extend_from_slice(&len_words.to_be_bytes());
         s
     };
+    if (backing as u64) >= n {
+        return out;
+    }
     if is_multipoint(ty) {
         let content = content_size(ty, 1, n as usize, with_m) as u64;
         let words = clamp_words(content);
@@ -480,14 +487,16 @@ pub fn ladder_inputs(ty: i32, n: u64, with_m: bool) -> Vec<(String, Vec<u8>, Vec
         shp.extend_from_slice(&ty.to_le_bytes());
         shp.extend_from_slice(&[0u8; 32]);
         shp.extend_from_slice(&(n as i32).to_le_bytes());
-        // a few points of real data, far fewer than declared
-        shp.extend_from_slice(&[0u8; 64]);
-        out.push((format!("{} declaring {} points (m={})", type_name(ty), n, with_m), shp.clone(), mk_shx(50, words)));
-        // the header length only covers what is really there
-        let mut shp2 = shp.clone();
-        let real = (shp2.len() / 2) as i32;
-        shp2[24..28].copy_from_slice(&real.to_be_bytes());
-        out.push((format!("{} declaring {} points, header length real", type_name(ty), n), shp2, mk_shx(50, words)));
+        // `backing` points of real data, far fewer than declared
+        shp.extend_from_slice(&vec![0u8; 16 * backing]);
+        out.push((format!("{} declaring {} points (m={}), {} present", type_name(ty), n, with_m, backing), shp.clone(), mk_shx(50, words)));
+        if backing == 4 {
+            // the header length only covers what is really there
+            let mut shp2 = shp.clone();
+            let real = (shp2.len() / 2) as i32;
+            shp2[24..28].copy_from_slice(&real.to_be_bytes());
+            out.push((format!("{} declaring {} points, header length real", type_name(ty), n), shp2, mk_shx(50, words)));
+        }
     } else if is_multipart(ty) {
         for (parts, points, what) in [(1u64, n, "points"), (n, 1u64, "parts"), (n, n, "parts-and-points")] {
             let content = content_size(ty, parts as usize, points as usize, with_m) as u64;
@@ -499,26 +508,41 @@ pub fn ladder_inputs(ty: i32, n: u64, with_m: bool) -> Vec<(String, Vec<u8>, Vec
             shp.extend_from_slice(&[0u8; 32]);
             shp.extend_from_slice(&(parts as i32).to_le_bytes());
             shp.extend_from_slice(&(points as i32).to_le_bytes());
-            shp.extend_from_slice(&[0u8; 64]);
-            out.push((format!("{} declaring {} {} (m={})", type_name(ty), n, what, with_m), shp, mk_shx(50, words)));
+            if parts == 1 {
+                // the part array, (for multipatch) the patch kind, then `backing` real points
+                shp.extend_from_slice(&0i32.to_le_bytes());
+                if ty == 31 {
+                    shp.extend_from_slice(&0i32.to_le_bytes());
+                }
+                shp.extend_from_slice(&vec![0u8; 16 * backing]);
+            } else {
+                // `backing` part offsets really present (all parts empty, at 0)
+                shp.extend_from_slice(&vec![0u8; 4 * backing.max(16)]);
+            }
+            out.push((format!("{} declaring {} {} (m={}), {} present", type_name(ty), n, what, with_m, backing), shp, mk_shx(50, words)));
         }
     }
     out
 }
 
-/// Index files whose header declares `n` entries with few or none present.
-pub fn ladder_index(n: u64) -> Vec<(String, Vec<u8>, Vec<u8>)> {
+/// Index files whose header declares `n` entries with `present` of them really there.
+pub fn ladder_index(n: u64, present: usize) -> Vec<(String, Vec<u8>, Vec<u8>)> {
     let ty = 1;
     let mut shp = hdr(ty, 64);
     shp.extend_from_slice(&1i32.to_be_bytes());
     shp.extend_from_slice(&10i32.to_be_bytes());
     shp.extend_from_slice(&ty.to_le_bytes());
     shp.extend_from_slice(&[0u8; 16]);
+    if (present as u64) >= n {
+        return vec![];
+    }
     let words = clamp_words(100 + 8 * n);
     let mut shx = hdr(ty, words);
-    shx.extend_from_slice(&50i32.to_be_bytes());
-    shx.extend_from_slice(&10i32.to_be_bytes());
-    vec![(format!("index declaring {} entries, one present", n), shp, shx)]
+    for _ in 0..present {
+        shx.extend_from_slice(&50i32.to_be_bytes());
+        shx.extend_from_slice(&10i32.to_be_bytes());
+    }
+    vec![(format!("index declaring {} entries, {} present", n, present), shp, shx)]
 }
 
 pub const LADDER: [u64; 9] = [1_000, 100_000, 1_000_000, 10_000_000, 100_000_000, 1 << 27, 1 << 28, 1 << 29, (1u64 << 31) - 1];
@@ -530,12 +554,22 @@ pub fn ladder_unit(unit: u64, ctx: &mut Ctx, ctl: &mut UnitCtl) {
         let ty = TYPES[unit as usize];
         for n in LADDER {
             for m in [true, false] {
-                inputs.extend(ladder_inputs(ty, n, m));
+                for backing in BACKING {
+                    if backing > 4 && (n < 1_000_000 || n > 100_000_000 || !m) {
+                        continue; // partially backed variants on the middle of the ladder only
+                    }
+                    inputs.extend(ladder_inputs(ty, n, m, backing));
+                }
             }
         }
     } else {
         for n in LADDER {
-            inputs.extend(ladder_index(n));
+            for present in [1usize, 4096, 4097, 9000] {
+                if present > 1 && !(1_000_000..=100_000_000).contains(&n) {
+                    continue;
+                }
+                inputs.extend(ladder_index(n, present));
+            }
         }
     }
     for (note, shp, shx) in inputs {
